@@ -69,6 +69,10 @@ elif expect == "early_wait":
             announced = any(n == "solver" and w == "notify_all" for n, w in r["trace"][b:pos])
             if not announced:
                 bad = "%%s: wait() returned at sync op %%d before the solver paused at a control point" %% (m[0], pos)
+elif expect == "wake_all":
+    for who, op, left in r["notifies"]:
+        if who == "solver" and left:
+            bad = "the solver announced its control point with %%s() while %%s sat in wait(): not woken" %% (op, left)
 elif expect == "progress":
     if r["left_paused"]:
         bad = "the solver left wait_for_cmd while pause requests %%s were still pending" %% r["left_paused"]
@@ -176,6 +180,10 @@ def unit_system(idx, K, thorough=False, timeout_ms=400000, only=None):
                        for t in range(1, S.nt)])
         pg.append(z3.And(z3.Or(*[st["pc0"] == p for p in exits]), pend))
     props["progress"] = z3.Or(*pg)
+    # a thread already blocked in wait() when the solver announces a control
+    # point is woken by that announcement
+    props["wake_all"] = z3.Or(*[st["missed%d" % t] for st in states
+                                for t in range(1, S.nt)])
 
     ncex = 0
     for pname, bad in props.items():
@@ -207,7 +215,8 @@ def unit_system(idx, K, thorough=False, timeout_ms=400000, only=None):
         ncex += 1
         expect = {"deadlock": "deadlock", "deadlock_known_class": "deadlock",
                   "error": "error", "exec": "exec",
-                  "early_wait": "early_wait", "progress": "progress"}[pname]
+                  "early_wait": "early_wait", "progress": "progress",
+                  "wake_all": "wake_all"}[pname]
         p = common.write_replay(PID, "sys%d_%s_%d" % (idx, pname, ncex),
                                 REPLAY % dict(programs=programs, order=order,
                                               expect=expect, path=_path()))
@@ -250,7 +259,8 @@ def main():
             # three threads: one process per property (the unsat proofs take
             # minutes each)
             for group in (("deadlock", "deadlock_known_class"), ("error",),
-                          ("exec",), ("early_wait",), ("progress",)):
+                          ("exec",), ("early_wait",), ("progress",),
+                          ("wake_all",)):
                 units.append(("vf.props.c18", "unit_system",
                               dict(idx=i, K=K if thorough else 36,
                                    thorough=thorough, only=group)))
